@@ -20,7 +20,7 @@ func vhNeedsUpdateTable() {
 	f := vMakeEntity(d, len(d.ents), parent)
 	e := d.ents[len(d.ents)-1]
 	strat := vInt("strat", 0, 31)
-	now := time.Now()
+	now := vNow()
 
 	got := needsUpdate(d, UpdateStrategy(strat), e.alias, e.cfg)
 	want := vReason(strat, f, pf, now)
@@ -70,7 +70,7 @@ func vhPlanForest() {
 	}
 	fs := vForest(d, n, arts, hashes)
 	strat := vInt("strat", 0, 31)
-	now := time.Now() // drawn before the call: needsUpdate is summarised
+	now := vNow() // drawn before the call: needsUpdate is summarised
 
 	list, err := PlanBulkUpdate(d, UpdateStrategy(strat))
 	vAssert(err == nil, "PlanBulkUpdate failed on a consistent database")
